@@ -36,23 +36,24 @@ const (
 )
 
 type vCluEnv struct {
-	c          *client
-	made       map[string]int
-	clients    []*vCluRC
-	lookups    int
-	dials      int
-	probes     int
-	sleeps     []time.Duration
-	budget     int // remaining scripted misbehaviours; afterwards the cluster is stable
-	replaced   hrpc.RegionInfo
-	closedAt   int // dials/lookups observed after Close returned
-	closed     bool
-	userOut    []int // scripted outcomes for user requests
-	twoRegions bool
-	bounce     bool // hbase:meta lists the region on alternating servers
-	refuse     int  // the next so many dials are refused
-	moved      bool // the region now lives on rs1; rs0 answers not-serving for it
-	stale      int  // hbase:meta still lists rs0 for this many more lookups
+	c           *client
+	made        map[string]int
+	clients     []*vCluRC
+	lookups     int
+	dials       int
+	probes      int
+	sleeps      []time.Duration
+	budget      int // remaining scripted misbehaviours; afterwards the cluster is stable
+	replaced    hrpc.RegionInfo
+	replacedFor map[string]hrpc.RegionInfo
+	closedAt    int // dials/lookups observed after Close returned
+	closed      bool
+	userOut     []int // scripted outcomes for user requests
+	twoRegions  bool
+	bounce      bool // hbase:meta lists the region on alternating servers
+	refuse      int  // the next so many dials are refused
+	moved       bool // the region now lives on rs1; rs0 answers not-serving for it
+	stale       int  // hbase:meta still lists rs0 for this many more lookups
 }
 
 var vClu *vCluEnv
@@ -165,34 +166,39 @@ func vLookupRegion(c *client, ctx context.Context, table, key []byte) (hrpc.Regi
 		}
 		return vMkRegion(0, 1, nil, nil), "rs1:1", nil
 	}
+	// the range of the region that contains the key, as hbase:meta knows it
+	var start, stop []byte
+	id := uint64(1)
+	if e.twoRegions {
+		if len(key) > 0 && key[0] >= 'm' {
+			start, id = []byte("m"), 2
+		} else {
+			stop = []byte("m")
+		}
+	}
+	k := string(start)
 	if e.misbehave() {
 		if verifBool() {
 			return nil, "", TableNotFound
 		}
-		if e.replaced == nil {
-			// the key now belongs to a newer region (a daughter of a split)
-			e.replaced = vMkRegion(0, 9, key, nil)
+		if e.replacedFor[k] == nil {
+			// the range now belongs to a newer region (e.g. the region was re-created)
+			e.replacedFor[k] = vMkRegion(0, id+6, start, stop)
+			e.replaced = e.replacedFor[k]
 		}
-		return e.replaced, "rs1:1", nil
 	}
-	if e.replaced != nil {
-		return e.replaced, "rs1:1", nil
+	if r := e.replacedFor[k]; r != nil {
+		return r, "rs1:1", nil
 	}
 	// the region is where it was; build a fresh RegionInfo like a meta scan does
-	if e.twoRegions {
-		if len(key) > 0 && key[0] >= 'm' {
-			return vMkRegion(0, 2, []byte("m"), nil), "rs0:1", nil
-		}
-		return vMkRegion(0, 1, nil, []byte("m")), "rs0:1", nil
-	}
-	return vMkRegion(0, 1, nil, nil), "rs0:1", nil
+	return vMkRegion(0, id, start, stop), "rs0:1", nil
 }
 
 var vErrFatal = errors.New("verif: application exception")
 
 func vCluSetup() (*client, *vCluEnv) {
 	c := vNewRootClient()
-	e := &vCluEnv{c: c, made: map[string]int{}, budget: verifParam("FAULTS")}
+	e := &vCluEnv{c: c, made: map[string]int{}, budget: verifParam("FAULTS"), replacedFor: map[string]hrpc.RegionInfo{}}
 	vClu = e
 	c.newRegionClientFn = e.factory
 	c.regionLookupTimeout = time.Second
@@ -322,8 +328,12 @@ func VerifTwoCallers() {
 	}
 	fin := make(chan struct{}, 2)
 	var r1, r2 vUserResult
+	second := "x"
+	if verifParam("SAME") == 1 {
+		second = "b" // both requests hit the same region
+	}
 	go vUserGet(c, context.Background(), "a", &r1, fin)
-	go vUserGet(c, context.Background(), "x", &r2, fin)
+	go vUserGet(c, context.Background(), second, &r2, fin)
 	<-fin
 	<-fin
 	verifQuiesce()
@@ -355,4 +365,43 @@ func VerifRegionMoved() {
 	verifAssert(reg.Client() != nil && reg.Client().Addr() == "rs1:1", "the region is served by the server that hosts it now")
 	verifAssert(verifGoroutines() == 0, "no goroutine is left")
 	verifReach("moved")
+}
+
+// VerifConcurrentFailureReports (C09): two requests report a failure of the same, currently
+// available region at the same time (two not-serving answers, or a not-serving answer and a
+// dead connection): under every interleaving each outage has one establisher, its waiters are
+// released exactly once (a second release is a close of a nil channel: a crash), and the
+// region ends up available.
+func VerifConcurrentFailureReports() {
+	c, e := vCluSetup()
+	reg := vMkRegion(0, 1, nil, nil)
+	c.regions.put(reg)
+	rc := e.factory("rs0:1", "", 0, 0, "", 0, nil, nil, nil)
+	reg.SetClient(c.clients.put("rs0:1", reg, func() hrpc.RegionClient { return rc }))
+	starts := 0
+	establishRegionOverride = func(r hrpc.RegionInfo, addr string) {
+		starts++
+		verifYield()
+		r.SetClient(rc)
+		r.MarkAvailable()
+	}
+	fin := make(chan struct{}, 2)
+	for i := 0; i < 2; i++ {
+		var err error = region.NotServingRegionError{}
+		if i == 1 && verifBool() {
+			err = region.ServerError{}
+		}
+		go func() {
+			c.handleResultError(err, reg, rc)
+			fin <- struct{}{}
+		}()
+	}
+	<-fin
+	<-fin
+	verifQuiesce()
+	establishRegionOverride, sleepAndIncreaseBackoffOverride = nil, nil
+	verifAssert(starts >= 1 && starts <= 2, "every outage of the region has one establisher")
+	verifAssert(!reg.IsUnavailable(), "the region ends up available")
+	verifAssert(verifGoroutines() == 0, "no goroutine is left")
+	verifReach("reported")
 }
